@@ -35,6 +35,13 @@ def instances(tier):
         tup = [(1, 2, 2, 0), (1, 3, 2, 0), (1, 4, 2, 0b0101), (1, 3, 3, 0), (1, 5, 2, 0b01010), (1, 4, 3, 0), (3, 3, 3, 0), (2, 3, 3, 0), (0, 3, 2, 0)]
     for rd, lines, ll, sm in tup:
         out.append(read_inst(rd, lines, ll, sm, timeout=1500 if tier == "quick" else 3600, mem_gb=8 if tier == "quick" else 14))
+    for lines, ll in ([(2, 3)] if tier == "quick" else [(1, 1), (2, 3), (3, 2), (3, 4)]):
+        out.append(Inst(ob="O1", name="stdin_l%dx%d" % (lines, ll), harness="c05_stdin.c",
+                        defs={"VK_LINES": lines, "VK_LL": ll, "VK_MSA_CAP": 2, "VK_SEQ_CAP": 4, "VK_STR_MAX": 30, "VK_OUT_LINES": 2, "VK_OUT_W": 8},
+                        srcs=IO_SRCS, models=IO_MODELS, native_srcs=IO_NATIVE, gi_args=["--replace-calls", "alloc_in_buffer:vk_alloc_in_buffer"],
+                        unwind=max(lines + 4, ll + 3), nb=lines * ll, timeout=300, mem_gb=6, flags=["--memory-leak-check"],
+                        funcs=["read_file_stdin", "free_in_buffer"], cost=lines * ll,
+                        bound="%d input lines of %d arbitrary non-NUL bytes" % (lines, ll), desc="raw input stage: lines cut at the first control character"))
     out += alpha_instances(tier, ob="O2", prefix="alpha")
     # O3 array API and O4 object life cycles (shared with C16), O6 command-line glue (shared with C09)
     import dataclasses
